@@ -224,6 +224,101 @@ def epigraph():
     return out
 
 
+# ------------------------------------------------------------------ end-to-end exactness against vertex enumeration
+
+def _poly_sets():
+    lo1, up1 = np.array([-2.5, -1.0]), np.array([-0.5, 1.0])
+    lo2, up2 = np.array([0.0, 0.5]), np.array([1.0, 2.5])
+    lo3, up3 = np.array([-1.0, -0.5]), np.array([0.0, -0.5])
+
+    def box(lo, up):
+        return (lambda z: [z <= up, z >= lo]), [(a, b) for a in (lo[0], up[0]) for b in (lo[1], up[1])]
+    return {
+        "box-negative-upper": box(lo1, up1),
+        "box-positive-lower": box(lo2, up2),
+        "box-zero-upper-and-fixed": box(lo3, up3),
+        "box-as-abs": ((lambda z: [abs(z - np.array([-1.5, 0.0])) <= 1.0]), [(-2.5, -1.0), (-2.5, 1.0), (-0.5, -1.0), (-0.5, 1.0)]),
+        "simplex": ((lambda z: [z >= 0, z.sum() <= 1.5]), [(0.0, 0.0), (1.5, 0.0), (0.0, 1.5)]),
+        "budget": ((lambda z: [rsome.norm(z, 1) <= 1.5, rsome.norm(z, "inf") <= 1]),
+                   [(a * 1.0, b * 0.5) for a in (-1, 1) for b in (-1, 1)] + [(a * 0.5, b * 1.0) for a in (-1, 1) for b in (-1, 1)]),
+        "segment (equality in the set)": ((lambda z: [z >= -1, z <= 2, z[0] + 2 * z[1] == 1]), [(2.0, -0.5), (-1.0, 1.0)]),
+        "shifted-1-norm": ((lambda z: [rsome.norm(z - np.array([1.0, -2.0]), 1) <= 0.5]), [(1.5, -2.0), (0.5, -2.0), (1.0, -1.5), (1.0, -2.5)]),
+    }
+
+
+def closed_form(setname, variant):
+    """For polytopic sets with known vertices: the projection of the compiled program onto (objective, x) is EXACTLY
+    {(t, x): objective row, bounds, and the constraint as written at every vertex} (a constraint affine in z holds
+    on a polytope iff it holds at its vertices).  With a decision rule y(z) = y0 + Y z the rule coefficients are
+    projected out on both sides.  Independent of the library's own dual of the set."""
+    from ..spec import proj
+    from ..sym import ctx, SymBool, to_z3_bool
+    import z3
+    mk, verts = _poly_sets()[setname]
+    A = np.array([[1.0, -2.0], [0.5, 1.5]])
+    a0 = np.array([0.5, -1.0])
+    cost = np.array([1.5, -2.0])
+
+    def setup(c):
+        m = ro.Model()
+        x = m.dvar(2)
+        y = m.ldr() if variant == "rule" else m.dvar()
+        z = m.rvar(2)
+        if variant == "rule":
+            y.adapt(z)
+        zs = mk(z)
+        if variant in ("default-set", "rule"):
+            m.minmax(cost @ x + 0.25 * y, *zs)
+        elif variant == "own-set-beside-a-default":
+            # a (different, smaller) default set exists: constraints carrying their own set must keep it
+            m.minmax(cost @ x + 0.25 * y, z <= 0.25, z >= -0.25)
+        else:
+            m.min(cost @ x + 0.25 * y)
+        k1 = (A @ x + a0) @ z + x[0] - 2 * x[1] + y <= 4
+        k2 = (x[1] * z[0] - y >= -3)
+        if variant == "default-set":
+            m.st(k1, k2)
+        else:
+            m.st(k1.forall(*zs), k2.forall(zs))
+        m.st(x <= 3, x >= -3)
+        if variant != "rule":
+            m.st(y <= 5, y >= -5)
+        F = m.do_math()
+        return {"F": F, "cols": [0, x.first, x.first + 1] + ([y.first] if variant != "rule" else [])}
+
+    def exact(ns, _):
+        c = ctx()
+        nu = len(ns["cols"])
+        X = [c.fresh_real(f"X{j}_") for j in range(nu)]
+        t, x0, x1 = X[0], X[1], X[2]
+        if variant == "rule":
+            y0, Y0, Y1 = (SymReal(z3.Real(n)) for n in ("ey0", "eY0", "eY1"))
+            yv = lambda v: y0 + Y0 * v[0] + Y1 * v[1]          # noqa: E731
+        else:
+            yv = lambda v: X[3]                                 # noqa: E731
+        rows = [p_le(-3.0, x0), p_le(x0, 3.0), p_le(-3.0, x1), p_le(x1, 3.0)]
+        if variant != "rule":
+            rows += [p_le(-5.0, X[3]), p_le(X[3], 5.0)]
+        for v in verts:
+            g1 = ((A[0, 0] * x0 + A[0, 1] * x1 + a0[0]) * v[0] + (A[1, 0] * x0 + A[1, 1] * x1 + a0[1]) * v[1] + x0 - 2 * x1 + yv(v))
+            rows.append(p_le(g1, 4.0))
+            rows.append(p_le(-3.0, x1 * v[0] - yv(v)))
+            if variant == "rule":
+                rows.append(p_le(cost[0] * x0 + cost[1] * x1 + 0.25 * yv(v), t))
+        if variant != "rule":
+            rows.append(p_le(cost[0] * x0 + cost[1] * x1 + 0.25 * X[3], t))
+        rhs = p_and(*rows)
+        if variant == "rule":
+            rhs = SymBool(z3.Exists([z3.Real("ey0"), z3.Real("eY0"), z3.Real("eY1")], to_z3_bool(rhs)))
+        return p_iff(proj.exists_feas(ns["F"], ns["cols"], X), rhs)
+
+    obs, _ = check_function("rsome.ro:<forall / le_to_rc / do_math>", setup, lambda ns: None,
+                            [post("projection-onto-the-decisions-equals-the-constraint-at-every-vertex", exact)],
+                            mode="D", label=f"{setname},{variant}", bounded=True, z3_ms=60000,
+                            replay=None if variant == "rule" else "auto")
+    return obs
+
+
 def jobs(tier):
     js = []
     for st in SETS:
@@ -233,6 +328,9 @@ def jobs(tier):
                     continue
                 js.append({"name": f"counterpart-{st}-{rows}-{given}", "kind": "counterpart", "set": st, "rows": rows, "given": given})
     js += [{"name": "no-support", "kind": "no_support"}, {"name": "rule-masks", "kind": "rule_masks"}, {"name": "epigraph", "kind": "epigraph"}]
+    for st in _poly_sets():
+        for variant in ("own-set", "default-set", "rule", "own-set-beside-a-default"):
+            js.append({"name": f"closed-form-{st}-{variant}", "kind": "closed_form", "set": st, "variant": variant})
     return js
 
 
@@ -246,4 +344,6 @@ def run_job(job):
         return rule_masks()
     if k == "epigraph":
         return epigraph()
+    if k == "closed_form":
+        return closed_form(job["set"], job["variant"])
     raise ValueError(k)
